@@ -237,6 +237,11 @@ for _p, _t in {
  "C15": "Round g: observers of a SeparationConstraint reading the freed guideline variable (known finding); ~Router frees objects of pending additions.",
 }.items():
     CHECKS[_p]["text"] = CHECKS[_p]["text"].rstrip() + " " + _t
+# clauses added in round j
+for _p, _t in {
+ "C14": "Round j: chain anchor directions are looked up for the ordered pair the fall-back uses; the configuration after two consecutive bends composes the single-bend configurations.",
+}.items():
+    CHECKS[_p]["text"] = CHECKS[_p]["text"].rstrip() + " " + _t
 # clauses added in round i
 for _p, _t in {
  "C01": "Round i: the static solver never looks at Constraint::equality (known finding).",
